@@ -309,6 +309,38 @@ func C10() int {
 		for i, j := range perm {
 			judgeLine(items[j], outP[j], outE3[i], "file2")
 		}
+		// feedback: the encrypt-mode OUTPUT of run 1 is the input of another pair of runs with the same
+		// key file. Its literals are now ciphertexts issued earlier — ordinary strings as far as the
+		// property goes: placeholder mode replaces them, encrypt mode encrypts them again (the bimap
+		// spans both generations: a ciphertext that comes back unchanged shares it with its plaintext)
+		var fb []Item
+		for i, it := range items {
+			if len(outE1[i]) > 40000 {
+				continue // twice-encrypted lines must stay below the reader's limit
+			}
+			t, err := jt.ParseObject(outE1[i])
+			if err != nil || !copyTags(it.Tree, t) {
+				continue
+			}
+			fb = append(fb, Item{Case: it.Case, Tree: t, Raw: outE1[i]})
+		}
+		if len(fb) > 0 {
+			in3 := write("in3.log", fb)
+			outP4, rP4 := run(in3, "p4.log", false)
+			outE4, rE4 := run(in3, "e4.log", true)
+			if rP4.TimedOut || rE4.TimedOut {
+				c.Inconclusive("watchdog")
+				return
+			}
+			if rP4.Exit != 0 || rE4.Exit != 0 || len(outP4) != len(fb) || len(outE4) != len(fb) {
+				c.Violation("feedback-run-failed", fmt.Sprintf("redacting the encrypt-mode output again (%d lines): placeholder mode exit %d, %d lines; encrypt mode exit %d, %d lines (flags %s): %s", len(fb), rP4.Exit, len(outP4), rE4.Exit, len(outE4), f, short(rE4.Stderr, 200)), nil)
+				return
+			}
+			for i, it := range fb {
+				judgeLine(it, outP4[i], outE4[i], "feedback")
+			}
+			c.Count("feedback_lines", len(fb))
+		}
 		if fi == 0 {
 			c.Sample(map[string]any{"flags": f.String(), "input": short(items[0].Raw, 500), "placeholder_mode": short(outP[0], 500), "encrypt_mode": short(outE1[0], 500)})
 		}
@@ -508,4 +540,34 @@ func c10KeyFileStates(s *sut.SUT, c *ev.Check, g *gen.Gen) {
 			c.Count("key_file_states_refused", 1)
 		}
 	})
+}
+
+// copyTags transfers the generator's tags from a tree onto another tree of the same shape
+// (same kinds, keys in the same order, same array lengths); false when the shapes differ.
+func copyTags(src, dst *jt.Node) bool {
+	if src == nil || dst == nil || src.K != dst.K {
+		return false
+	}
+	dst.T = src.T
+	switch src.K {
+	case jt.Obj:
+		if len(src.Keys) != len(dst.Keys) {
+			return false
+		}
+		for i := range src.Keys {
+			if src.Keys[i] != dst.Keys[i] || !copyTags(src.Vals[i], dst.Vals[i]) {
+				return false
+			}
+		}
+	case jt.Arr:
+		if len(src.Vals) != len(dst.Vals) {
+			return false
+		}
+		for i := range src.Vals {
+			if !copyTags(src.Vals[i], dst.Vals[i]) {
+				return false
+			}
+		}
+	}
+	return true
 }
